@@ -65,6 +65,58 @@ class Run:
         return None
 
 
+def run_isolated(fn, run):
+    """Run one bounded enumeration in a forked child with a pristine copy of this interpreter; its result and what it added to
+    the run (violations, known-finding hits) come back through a pipe.  Falls back to running in-process if anything about the
+    isolation itself fails (never a verdict)."""
+    import pickle
+    if os.environ.get("VERIF_NO_FORK") or not hasattr(os, "fork"):
+        return fn(run)
+    rfd, wfd = os.pipe()
+    sys.stdout.flush()
+    pid = os.fork()
+    if pid == 0:
+        code = 0
+        try:
+            os.close(rfd)
+            n_v = len(run.violations)
+            hits0 = {k: len(v) for k, v in run.known_hits.items()}
+            res = fn(run)
+            new_hits = {k: v[hits0.get(k, 0):] for k, v in run.known_hits.items()}
+            try:
+                blob = pickle.dumps(("ok", res, run.violations[n_v:], new_hits))
+            except Exception:
+                blob = pickle.dumps(("ok", json.loads(json.dumps(res, default=repr)), json.loads(json.dumps(run.violations[n_v:], default=repr)), new_hits))
+            with os.fdopen(wfd, "wb") as fh:
+                fh.write(blob)
+        except BaseException:
+            code = 17
+            try:
+                with os.fdopen(wfd, "wb") as fh:
+                    fh.write(pickle.dumps(("error", traceback.format_exc())))
+            except Exception:
+                pass
+        finally:
+            sys.stdout.flush()
+            os._exit(code)
+    os.close(wfd)
+    with os.fdopen(rfd, "rb") as fh:
+        blob = fh.read()
+    os.waitpid(pid, 0)
+    try:
+        msg = pickle.loads(blob)
+    except Exception:
+        msg = ("error", "no result from the child")
+    if msg[0] != "ok":
+        print(f"CHECKER-NOTE: isolation of {getattr(fn, '__name__', fn)} failed, running in-process: {str(msg[1])[-200:]}")
+        return fn(run)
+    _, res, viols, hits = msg
+    run.violations.extend(viols)
+    for k, v in hits.items():
+        run.known_hits.setdefault(k, []).extend(v)
+    return res
+
+
 def write_replay(pid, idx, payload):
     out_root = os.environ.get("VERIF_OUT") or ROOT
     d = os.path.join(out_root, "replays", pid)
@@ -107,14 +159,18 @@ def main(argv=None):
     spec = props.PROPS[args.pid]
     from checker import deductive, evidence
     try:
-        ded = deductive.run(run, spec, timeout=args.timeout or (8.0 if tier == "quick" else 90.0),
-                            only=args.only, verbose=args.verbose)
+        # The bounded enumerations run first, each in a forked child: they compare the code with itself in several ways (a model
+        # against its flat twin, a parse against a re-parse), so interpreter state left behind by earlier work in this process --
+        # e.g. a cache introduced by the change under test and filled on a base class by the native contract checks -- can make
+        # both sides wrong in the same way and hide the difference (seeded change C15-A was hidden exactly so).
         bnd = {"checks": [], "label": "bounded"}
         for fn in spec.get("bounded", []):
             t1 = time.time()
-            res = fn(run)
+            res = run_isolated(fn, run)
             res["wall_s"] = round(time.time() - t1, 2)
             bnd["checks"].append(res)
+        ded = deductive.run(run, spec, timeout=args.timeout or (8.0 if tier == "quick" else 90.0),
+                            only=args.only, verbose=args.verbose)
     except Exception:
         traceback.print_exc()
         print("CHECKER-ERROR: internal error (not a verdict)")
